@@ -119,9 +119,39 @@ fn proj(o: &Outcome, s: &Session) -> J {
     }
 }
 
+/// characters chosen to collide under truncation: same low byte (A / U+0141 / U+FF21 / U+1F441), same low 16 bits (U+0041 / U+10041),
+/// plus combining marks, a 2-, 3- and 4-byte character each and ASCII
+const WIDE: &[char] = &['A', '\u{141}', '\u{241}', '\u{ff21}', '\u{1f441}', '\u{10041}', 'a', '\u{161}', '\u{e9}', 'e', '\u{301}', '\u{20ac}', '\u{1f600}', ' ', '0', '\u{100}'];
+
+fn strlaw_events(seed: u64, n: usize) -> Vec<J> {
+    let mut r = Rng::new(seed ^ 0x57A);
+    let mut out = vec![];
+    let s = Session::new(); // one session for all strings: whatever the evaluator remembers between strings stays in play
+    for _ in 0..n {
+        let len = r.below(7) as usize;
+        let chars: Vec<char> = (0..len).map(|_| *r.pick(WIDE)).collect();
+        let text: String = chars.iter().collect();
+        let lit = mv::str_src(&text);
+        let strs = |o: Outcome| -> Vec<String> {
+            match o { Outcome::Ok(v) => match mv::concrete_of_value(&v, &s.heap.borrow()) { J::Object(m) => m.get("l").and_then(|l| l.as_array()).map(|a| a.iter().map(|x| x["s"].as_str().unwrap_or("<?>").to_string()).collect()).unwrap_or(vec!["<not a list>".into()]), _ => vec!["<?>".into()] }, o => vec![format!("<{}>", o.class())] }
+        };
+        let spread = strs(s.eval(&format!("[...{lit}]")));
+        let indexed = strs(s.eval(&format!("range({len}) via (i => {lit}[i])")));
+        let sliced = strs(s.eval(&format!("range({len}) via (i => slice({lit}, i, i + 1))")));
+        let n_len = match s.eval(&format!("len({lit})")) { Outcome::Ok(blots_core::values::Value::Number(x)) => x as i64, _ => -1 };
+        let truth = |src: String| matches!(s.eval(&src), Outcome::Ok(blots_core::values::Value::Bool(true)));
+        let joined = truth(format!("join([...{lit}], \"\") == {lit}"));
+        let headtail = len == 0 || truth(format!("head({lit}) + tail({lit}) == {lit} and head({lit}) == {lit}[0]"));
+        let want: Vec<String> = chars.iter().map(|c| c.to_string()).collect();
+        out.push(json!({"ev":"strlaw","src":format!("[...{lit}] and friends"),"chars":want,"spread":spread,"indexed":indexed,"sliced":sliced,"len":n_len,"joined":joined,"headtail":headtail}));
+        crate::ev::clear_stats();
+    }
+    out
+}
+
 pub fn record(seed: u64, n: usize) -> Vec<J> {
     let mut r = Rng::new(seed);
-    let mut out = vec![];
+    let mut out = strlaw_events(seed, (n / 8).max(100));
     let null = json!({"t":"null"});
     for _ in 0..n {
         let cfg = GenCfg { max_depth: 2, max_len: 3, rank: 5, alpha: vec![2, 3, 5, 12, 13, 16, 17, 18, 19], specials: false };
